@@ -562,9 +562,10 @@ H("C17", "debugger::asm::verif_h::c17_source_statement_lookup", ASMF, covers=3, 
   what="address -> statement (address - origin) or nothing; shown text = statement span", bounds="<= 3 statements; 8-byte source")
 
 NAMEF = "src/debugger/command/parse/name.rs"
-H("C14", "debugger::command::parse::name::verif_h::c14_names_main_table", NAMEF, covers=1, timeout=3000, mem_gb=24,
-  functions=["find_name_match", "name_matches", "COMMANDS"], what="every name/alias of the real command table in every letter case (symbolic case mask) resolves to "
-  "its command, no name is shadowed; every misspelling gives a suggestion", bounds="the table as compiled; names <= 24 bytes")
+for k in range(6):
+    H("C14", f"debugger::command::parse::name::verif_h::c14_names_main_{k}", NAMEF, tier=("quick" if k in (3, 5) else "thorough"), covers=1, timeout=3000, mem_gb=24,
+      functions=["find_name_match", "name_matches", "COMMANDS"], what=f"entries {3*k}..{3*k+2} of the real command table: every name/alias in every letter case "
+      "(symbolic case mask) resolves to its command, no name is shadowed; every misspelling gives a suggestion", bounds="the table as compiled; names <= 24 bytes")
 H("C14", "debugger::command::parse::name::verif_h::c14_names_subcommands", NAMEF, covers=0, timeout=3000, mem_gb=24,
   functions=["find_name_match", "name_matches", "SUBCOMMANDS_STEP", "SUBCOMMANDS_BREAK"], what="step / break subcommand tables, symbolic case mask", bounds="the tables as compiled")
 
